@@ -50,4 +50,10 @@ PROPS = {
         specs=["specs.c05_allocate"],
         bounded=["bounded.c05_allocate"],
     ),
+    "C16": dict(
+        level="proof",
+        specs=["specs.c16_typecasts"],
+        bounded=["bounded.c16_typecasts"],
+        trusted=["T9 floats are modelled as reals: for the inputs in scope, multiplying a double by 2.0**k is exact (IEEE-754, no overflow/underflow), int() truncates toward zero; 2.0**k is an uninterpreted positive real function with 2**k * 2**-k == 1"],
+    ),
 }
